@@ -32,6 +32,9 @@ type MSlot struct {
 	Flatten bool
 	Zero    bool   // the function returns the zero value for this result
 	SlT     string // named slice type variant of a slice-typed result
+	// ZeroFirst: the first element of a slice-typed result (flatten result,
+	// decorated group) is the zero value
+	ZeroFirst bool
 }
 
 type MLeaf struct {
@@ -288,7 +291,7 @@ func slotsOf(f *Fn, o *Opts, deco bool) []MSlot {
 			}
 			return
 		}
-		s := MSlot{Path: path, T: r.T, N: 1, Zero: r.Zero && !r.Slice && !r.Flatten, SlT: r.SlT}
+		s := MSlot{Path: path, T: r.T, N: 1, Zero: r.Zero && !r.Slice && !r.Flatten, SlT: r.SlT, ZeroFirst: r.Zero && (r.Slice || r.Flatten) && r.N > 0}
 		name, group, flatten := r.Name, r.Group, r.Flatten
 		if top {
 			name, group, flatten = optName, optGroup, optFlatten
